@@ -139,4 +139,6 @@ class BaseSchema(ABC):
         """
 
     def __setstate__(self, state):
-        self.__dict__ = state
+        # copy.copy() hands over the attribute dictionary of the original
+        # itself: adopt its entries, not the dictionary
+        self.__dict__.update(state)
